@@ -342,7 +342,7 @@ theorem cexOrder_deadlock :
   have hw12 : WaitsFor s 1 2 := by show s.m = some 2; decide
   have hw21 : WaitsFor s 2 1 := by
     show ∃ x ∈ s.readers, x.owner = 1
-    exact ⟨⟨1, 7, 0, 0, none⟩, by decide, rfl⟩
+    exact ⟨⟨1, 7, 0, 0, none, none, false⟩, by decide, rfl⟩
   have hidle : ∀ u, u ≠ 1 → u ≠ 2 → (s.thr u).prog = [] ∧ holdsSession s u = false := by
     intro u h1 h2
     have : (s.thr u) = (init (natDb 0) : S Nat Nat Nat Nat).thr u := by
@@ -396,7 +396,7 @@ theorem cexNested_deadlock :
   have hw12 : WaitsFor s 1 2 := by show s.wbit = some 2; decide
   have hw21 : WaitsFor s 2 1 := by
     show ∃ x ∈ s.readers, x.owner = 1
-    exact ⟨⟨1, 7, 0, 0, some 0⟩, by decide, rfl⟩
+    exact ⟨⟨1, 7, 0, 0, some 0, none, false⟩, by decide, rfl⟩
   exact ⟨.cons hb1 hw12 (.one hb2 hw21), hb1, hb2, by decide, by decide⟩
 
 /-- **Observation — the parent-committed check of `Overlay::commit` is not under the write guard.**  The marker
